@@ -292,6 +292,14 @@ class Prog:
                 a = self.arr(n, c)
                 a[rng.random(n) < 0.5] = 0
                 return a
+            if t < 0.26 and c and n >= 2:
+                # a non-zero complex vector whose *bilinear* self-product u.u is exactly zero (circular polarisation (1, i, 0)):
+                # it is not a zero vector
+                a = np.zeros(n, dtype=complex)
+                i, j = rng.choice(n, 2, replace=False)
+                sc = float(rng.choice([0.5, 1.0, 2.0]))
+                a[i], a[j] = sc, 1j * sc * float(rng.choice([-1, 1]))
+                return a
         return self.arr(n, c)
 
     def balance(self, us, vs):
@@ -477,6 +485,8 @@ class Prog:
             variants.append("sym")
         if n == 1 and m == 1 and k >= 1:
             variants.append("scalars")
+        if (n == 1 or m == 1) and k >= 1:
+            variants += ["zerod", "zerod"]
         var = variants[int(rng.integers(len(variants)))]
         self.trace.append(f"construct[{var},k={k},{n}x{m}]")
         fac = [1.0] * k
@@ -499,6 +509,16 @@ class Prog:
             ub = [u[0] for u in us]
             vb = [v[0] for v in vs]
             D = self.DC(ub, vb, shape=(1, 1)) if rng.random() < 0.5 else self.DC(ub, vb)
+        elif var == "zerod":
+            # the length-1 factor is handed over as a 0-d array (a scalar signal's state): it stays the caller's
+            ub = [np.array(u[0]) if n == 1 else u for u in us]
+            vb = [np.array(v[0]) if m == 1 else v for v in vs]
+            if k == 1 and rng.random() < 0.5:
+                D = self.DC(self.keep(ub[0]), self.keep(vb[0]), shape=(n, m))
+            else:
+                D = self.DC(self.keep(ub), self.keep(vb), shape=(n, m))
+            for x in ub + vb:
+                self.keep(x)
         elif var == "block":
             # blocks are summed over all but the last axis:  (sum_a U_a) (sum_b V_b)^T
             ub, vb = [], []
@@ -568,7 +588,10 @@ class Prog:
                 return np.zeros(0, dtype=int), True
             return rng.integers(-n, n, int(rng.integers(0, 5))), True
         if kind == "mask":
-            return rng.random(n) < 0.5, True
+            mk = rng.random(n) < 0.5
+            if rng.random() < 0.35:
+                return [bool(b) for b in mk], True       # numpy reads a list of bools as a mask, not as indices 0/1
+            return mk, True
         if kind == "list":
             if n == 0:
                 return None, False
